@@ -30,10 +30,12 @@ ASSUMPTIONS = [
     "operations, so variants must agree with the baseline to 8 ulp (plus the shadow's spread)",
 ]
 MIN_MONITOR = {"mon.variant_value_oracle": 50, "mon.structure_differs": 20,
-               "mon.variants_interpreted": 20}
+               "mon.variants_interpreted": 20, "mon.sym_variant_value_oracle": 20}
 SHARD_TIMEOUT = {"quick": 900, "thorough": 7200}
 N_PROGRAMS = {"quick": 500, "thorough": 12000}
 N_VARIANTS = {"quick": 6, "thorough": 14}
+N_SYM = {"quick": 160, "thorough": 3200}
+N_SYM_VARIANTS = {"quick": 4, "thorough": 8}
 OPTS = {"no_loopy": True}
 
 
@@ -46,6 +48,11 @@ def plan(tier: str, seed: int) -> list[dict[str, Any]]:
     cases = [{"seed": common.sub_seed(seed, "c07", i) & 0x7FFFFFFF,
               "profile": profiles[i % len(profiles)], "nvar": N_VARIANTS[tier]}
              for i in range(n)]
+    # symbolic-shape programs (size parameters in shapes, reduction extents, broadcasts):
+    # one parametric kernel per tag assignment, run at several valuations
+    cases += [{"seed": common.sub_seed(seed, "c07-sym", i) & 0x7FFFFFFF, "sym": True,
+               "nvar": N_SYM_VARIANTS[tier]} for i in range(N_SYM[tier])]
+    common.rng_for(seed, "c07-plan").shuffle(cases)
     return [{"cases": c} for c in common.split_even(cases, common.NCPU * (1 if tier == "quick"
                                                                           else 4))]
 
@@ -376,7 +383,7 @@ def tagsig(spec: dict[str, Any], asg: dict[str, list[list[Any]]] | None, strip: 
         return "baseline"
     byid = {str(n["id"]): n["op"] for n in spec["nodes"]}
     for i in spec["inputs"]:
-        byid[str(i["id"])] = "input-" + i["kind"]
+        byid[str(i["id"])] = "input-" + i.get("kind", "ph")
     parts = sorted({f"{k}@{byid.get(nid, '?')}" for nid, tags in asg.items() for k, _ in tags})
     return ",".join(parts)[:160]
 
@@ -539,11 +546,201 @@ def check_case(case: dict[str, Any], col: common.Collector) -> None:
                           {**wit, "asg": a2, **extra})
 
 
+# ---------------------------------------------------------------------------
+# symbolic-shape programs
+
+def sym_variant(spec: dict[str, Any], asg: dict[str, list[list[Any]]] | None,
+                vals: list[dict[str, int]]) -> dict[str, Any]:
+    import pytato as pt
+    from vf.exec import ctarget
+    from vf.gen import symgen
+    applied: dict[str, int] = {}
+    try:
+        sb = symgen.SymBuild(spec, post=make_post(asg, applied) if asg else None)
+    except TagApplyError as e:
+        return {"status": "tag-refused", "kind": e.kind, "exc": e.exc}
+    dag = pt.transform.deduplicate(pt.make_dict_of_named_arrays(sb.outputs()))
+    try:
+        bp = ctarget.generate(dag)
+    except ctarget.CodegenFailure as f:
+        if isinstance(f.exc, ValueError) and "conflicts with an existing name" in str(f.exc):
+            return {"status": "named-conflict"}
+        return {"status": "fail", "stage": f.stage, "exc": f.exc, "detail": f.detail}
+    try:
+        cp = ctarget.compile_program(bp)
+    except ctarget.CodegenFailure as f:
+        return {"status": "fail", "stage": f.stage, "exc": f.exc, "detail": f.detail, "bp": bp}
+    knl = bp.program.default_entrypoint
+    runs: list[dict[str, Any] | None] = []
+    for val in vals:
+        conc = symgen.instantiate(spec, val)
+        iv = ps.input_values(conc, 0)
+        env: dict[str, Any] = {i["name"]: iv[i["id"]] for i in conc["inputs"]}
+        env.update(val)
+        env = {k: v for k, v in env.items() if k in knl.arg_dict}
+        try:
+            rr = ctarget.run(cp, bp, env)
+            runs.append({"outputs": rr.outputs, "canary": rr.canary_violations})
+        except ctarget.KernelContractError as e:
+            runs.append({"contract": str(e)[:160]})
+    return {"status": "ok", "runs": runs, "structure": structure(bp), "bp": bp,
+            "applied": applied}
+
+
+def sym_problems(base: dict[str, Any], var: dict[str, Any], vals: list[dict[str, int]],
+                 spreads: list[Any]) -> list[tuple[str, str, dict[str, Any]]]:
+    from vf.oracle import compare
+    out: list[tuple[str, str, dict[str, Any]]] = []
+    for val, rb, rv, spread in zip(vals, base["runs"], var["runs"], spreads):
+        if "contract" in rb or spread is None:
+            continue
+        if "contract" in rv:
+            out.append(("C07:sym:kernel-interface", rv["contract"], {"valuation": val}))
+            continue
+        if set(rv["outputs"]) != set(rb["outputs"]):
+            out.append(("C07:sym:output-names", f"{sorted(rv['outputs'])} vs baseline "
+                        f"{sorted(rb['outputs'])}", {"valuation": val}))
+            continue
+        if rv["canary"] and not rb["canary"]:
+            out.append(("C07:sym:out-of-bounds-write", f"buffers {rv['canary']}",
+                        {"valuation": val}))
+        for name, got in rv["outputs"].items():
+            b0 = rb["outputs"][name]
+            if got.shape != b0.shape or got.dtype != b0.dtype:
+                out.append(("C07:sym:shape-dtype", f"output {name}: {got.dtype}{got.shape} vs "
+                            f"baseline {b0.dtype}{b0.shape} at {val}", {"valuation": val}))
+            elif not compare.close_ulps(got, b0, 8.0, err=2.0 * spread[name]):
+                out.append(("C07:sym:value-vs-baseline", f"output {name} differs from the "
+                            f"untagged parametric kernel at sizes {val}",
+                            {"valuation": val, "output": name,
+                             "diff": compare.describe_diff(got, b0)}))
+    return out
+
+
+def codegen_problem(var: dict[str, Any], col: common.Collector, prefix: str
+                    ) -> list[tuple[str, str, dict[str, Any]]]:
+    """A failing variant: [] when the failure is the trusted base's (positive evidence)."""
+    from vf.checks import c01
+    lim = c01.loopy_limitation(var["stage"], var.get("exc"), var.get("detail") or "",
+                               var.get("bp"))
+    if lim is None and var["stage"] in ("gcc", "loopy-codegen") and var.get("bp"):
+        try:
+            tb = c01.trusted_base_signatures(var["bp"].program)
+        except Exception:  # noqa: BLE001
+            tb = set()
+        if tb:
+            lim = "+".join(sorted(tb))
+    if lim is not None:
+        col.histo("trusted_base_disagreements", f"{var['stage']}:{lim}")
+        return []
+    exc = var.get("exc")
+    site = common.exc_site(exc) if exc is not None else "gcc"
+    return [(f"{prefix}:{var['stage']}:{type(exc).__name__ if exc else 'gcc'}@{site}",
+             "tagged variant fails code generation while the untagged program succeeds: "
+             f"{str(exc)[:160] if exc else var['detail'][-200:]}", {})]
+
+
+def check_sym_case(case: dict[str, Any], col: common.Collector) -> None:
+    from vf.checks import c01
+    from vf.gen import symgen
+    spec = case.get("spec") or symgen.generate(case["seed"])
+    params = spec["params"]
+    rng = common.rng_for(spec["vseed"], "c07-sym")
+    vals = case.get("valuations")
+    if vals is None:
+        vals = [dict.fromkeys(params, 3)]
+        vals += [{p: rng.randrange(0, 7) for p in params} for _ in range(2)]
+    try:
+        base = sym_variant(spec, None, vals)
+    except Exception as e:  # noqa: BLE001  -- C16's business
+        col.histo("sym_baseline_failed", type(e).__name__)
+        col.case()
+        return
+    if base["status"] != "ok":
+        col.histo("sym_baseline_failed", base["status"])
+        col.case()
+        return
+    try:
+        if c01.trusted_base_signatures(base["bp"].program):
+            col.histo("sym_baseline_failed", "trusted-base-construct")
+            col.case()
+            return
+    except Exception:  # noqa: BLE001
+        pass
+    spreads: list[Any] = []
+    for val in vals:
+        conc = symgen.instantiate(spec, val)
+        try:
+            _r, sp, fragile, _p = ps.reference(conc, 0)
+        except Exception:  # noqa: BLE001
+            sp, fragile = None, True
+        spreads.append(None if fragile else sp)
+    if all(sp is None for sp in spreads):
+        col.count("skipped_fragile")
+        col.case()
+        return
+    col.count("mon.sym_baselines")
+    if "asg" in case:
+        variants = [case["asg"]]
+    else:
+        arng = common.rng_for(spec["vseed"], "c07-sym-asg")
+        variants = [random_assignment(spec, arng, k) for k in range(case.get("nvar", 4))]
+    sh = common.stable_hash(spec)
+    for asg in variants:
+        wit = {"sym": True, "spec": spec, "asg": asg, "valuations": vals}
+
+        def problems(a: Any) -> tuple[dict[str, Any], list[tuple[str, str, dict[str, Any]]]]:
+            v = sym_variant(spec, a, vals)
+            if v["status"] == "fail":
+                return v, codegen_problem(v, col, "C07:sym:codegen")
+            if v["status"] != "ok":
+                return v, []
+            pr = sym_problems(base, v, vals, spreads)
+            if pr and c01.trusted_base_signatures(v["bp"].program):
+                col.histo("trusted_base_disagreements", "sym-values")
+                pr = []
+            return v, pr
+        try:
+            var, probs = problems(asg)
+        except Exception as e:  # noqa: BLE001
+            col.violation(f"C07:sym:variant-crashes:{type(e).__name__}@{common.exc_site(e)}:"
+                          f"{tagsig(spec, asg, False)}",
+                          f"tagged variant raised {type(e).__name__}: {str(e)[:160]}", wit)
+            continue
+        col.histo("sym_variant_status", var["status"])
+        if var["status"] == "tag-refused":
+            col.histo("tag_refused", f"{var['kind']}:{type(var['exc']).__name__}")
+        if var["status"] == "ok":
+            col.count("mon.sym_variant_value_oracle",
+                      sum(len(r.get("outputs", ())) for r in var["runs"]))
+            differs = var["structure"] != base["structure"]
+            if differs:
+                col.count("mon.structure_differs")
+            col.case(common.stable_hash([sh, asg, "sym"]), differs,
+                     {"ops": ps.node_kinds(spec), "assignment": asg, "params": params,
+                      "valuations": vals, "symbolic": True})
+        for coarse, what, extra in probs:
+            def fails(cand: dict[str, list[list[Any]]]) -> bool:
+                try:
+                    return any(c == coarse for c, _w, _e in problems(cand)[1])
+                except Exception:  # noqa: BLE001
+                    return False
+            try:
+                a2 = minimise_assignment(asg, fails) if asg else asg
+            except Exception:  # noqa: BLE001
+                a2 = asg
+            col.violation(f"{coarse}:{tagsig(spec, a2, False)}", what,
+                          {**wit, "asg": a2, **extra})
+
+
 def run_shard(shard: dict[str, Any], col: common.Collector) -> None:
     for case in shard["cases"]:
         try:
             with common.time_limit(180):
-                check_case(case, col)
+                if case.get("sym"):
+                    check_sym_case(case, col)
+                else:
+                    check_case(case, col)
         except common.Timeout:
             col.count("program_timeouts")
         except Exception as e:  # noqa: BLE001
@@ -557,7 +754,10 @@ def run_shard(shard: dict[str, Any], col: common.Collector) -> None:
 
 
 def replay(witness: dict[str, Any], col: common.Collector) -> None:
-    if "spec" in witness:
+    if witness.get("sym"):
+        check_sym_case({"sym": True, "spec": witness["spec"], "asg": witness.get("asg"),
+                        "valuations": witness.get("valuations")}, col)
+    elif "spec" in witness:
         check_case({"spec": witness["spec"], "asg": witness.get("asg"),
                     "strip": witness.get("strip")}, col)
     else:
